@@ -107,6 +107,8 @@ const alAKey = "$allocA"
 func (w *World) regAllocKeys() {
 	w.regHeap(alKey, ArrSort(SInt, SBool), nil)
 	w.regHeap(alAKey, ArrSort(SInt, SBool), nil)
+	w.regHeap(alKey+"@entry", ArrSort(SInt, SBool), nil)
+	w.regHeap(alAKey+"@entry", ArrSort(SInt, SBool), nil)
 }
 
 func relName(fn *ssa.Function) string {
@@ -647,6 +649,16 @@ func (fr *frame) autoInvs(b *ssa.BasicBlock, phiVals map[*ssa.Phi]*Val) []*Term 
 		if !ok {
 			break
 		}
+		if _, isSl := types.Unalias(phi.Type()).Underlying().(*types.Slice); isSl {
+			// slices built up from nil / fresh arrays by append stay nil-or-fresh
+			if derivedFresh(phi, map[ssa.Value]bool{}) {
+				if pv := phiVals[phi]; pv != nil && pv.T != nil {
+					al := fr.entry.get(alAKey)
+					out = append(out, Or(Eq(SlArr(pv.T), IntLit(0)), Not(Select(al, SlArr(pv.T)))))
+				}
+			}
+			continue
+		}
 		if phi.Comment != "rangeindex" {
 			// counting loops: i = i + c (c > 0) keeps i >= init; i = i - c keeps i <= init
 			pv := phiVals[phi]
@@ -664,6 +676,9 @@ func (fr *frame) autoInvs(b *ssa.BasicBlock, phiVals map[*ssa.Phi]*Val) []*Term 
 					}
 					init = e
 					continue
+				}
+				if e == ssa.Value(phi) {
+					continue // unchanged along this edge
 				}
 				bo, isB := e.(*ssa.BinOp)
 				if !isB || bo.X != phi || (bo.Op != token.ADD && bo.Op != token.SUB) {
@@ -789,7 +804,8 @@ func (fr *frame) enterLoop(b *ssa.BasicBlock, li *loopInfo, st *State, phiIn fun
 		pre := st.heap
 		if li.modAll {
 			st.heap = st.heap.havocAll(fmt.Sprintf("L%d_", li.ordinal))
-		} else if len(li.mod) > 0 {
+		}
+		if len(li.mod) > 0 {
 			st.heap = st.heap.havocKeys(li.mod, fmt.Sprintf("L%d", li.ordinal))
 		}
 		// allocation only grows
@@ -947,4 +963,37 @@ func (fr *frame) backEdge(b, h *ssa.BasicBlock, c *Term, st *State) {
 // headerHeap: the heap as it was right after the havoc at the loop header.
 func (fr *frame) headerHeap(li *loopInfo, st *State) *Heap {
 	return fr.hdrHeaps[li.header]
+}
+
+// derivedFresh: v is nil, a freshly allocated slice, or an append to such a
+// value (coinductively through phis).
+func derivedFresh(v ssa.Value, seen map[ssa.Value]bool) bool {
+	if seen[v] {
+		return true
+	}
+	seen[v] = true
+	switch x := v.(type) {
+	case *ssa.Const:
+		return x.Value == nil
+	case *ssa.Phi:
+		for _, e := range x.Edges {
+			if !derivedFresh(e, seen) {
+				return false
+			}
+		}
+		return true
+	case *ssa.MakeSlice:
+		return true
+	case *ssa.Slice:
+		if a, ok := x.X.(*ssa.Alloc); ok {
+			_ = a
+			return true
+		}
+		return false
+	case *ssa.Call:
+		if b, ok := x.Call.Value.(*ssa.Builtin); ok && b.Name() == "append" {
+			return derivedFresh(x.Call.Args[0], seen)
+		}
+	}
+	return false
 }
